@@ -243,6 +243,22 @@ PROPS = {
         "shards": {"quick": 4, "thorough": 16},
         "no_panic": ["rpc "],
     },
+    "C15": {
+        "modules": ["Capnp.Props.C15"],
+        "gen": False,
+        "rule": "generated CodeGeneratorRequests (one struct with 1-6 fields of every kind: bool, (u)int8-64, float32/64, enum, text, data, struct, "
+                "list, anyPointer, void; every slot offset of 1-4 data words and of data sections of 64 KiB and more; random and boundary defaults; "
+                "with and without a union, discriminant at any 16-bit unit) are fed to the capnpc-go binary built from the current source, as the "
+                "plugin protocol does; from the emitted Go every accessor's Struct primitives are extracted with their literal offsets, XOR masks, "
+                "negations, discriminant checks / stores, and NewT's ObjectSize, and compared with what the model derives from the schema (M); the "
+                "generator is run twice in separate processes and the outputs compared byte for byte; a rotating subset of outputs is compiled.",
+        "trusted": COMMON_TRUSTED + ["the regular expressions that read the generated Go (harness/gen15.go)",
+                                     "Struct.UintN / SetUintN / Bit / SetBit semantics (C01, C03, C04)",
+                                     "groups, interfaces, generics, constants and annotations are not generated by the stream"],
+        "assumptions": ["'compiles for any schema' and byte-identical output are checked on the generated schemas only"],
+        "shards": {"quick": 4, "thorough": 16},
+        "no_panic": [],
+    },
     "C12": {
         "modules": ["Capnp.Props.C12"],
         "gen": False,
